@@ -248,6 +248,9 @@ func runCaseM(t failer, p *WorldProp, cfg sim.Config, next func(m *Machine, i in
 				cf.Violation = "C11.I1.halt: " + h.Error()
 				t.Fatalf("VIOLATION C11.I1.halt: %s\n%s\nhistory: %s", h.Error(), h.Stack, historyString(m))
 			}
+			if os.Getenv("VERIF_DEBUG_HALT") != "" {
+				fmt.Printf("DEBUGHALT %s\n%s\nhistory: %s\n", h.Error(), h.Stack, historyString(m))
+			}
 			statsMu.Lock()
 			st.Aborted++
 			v := h.Value
